@@ -35,7 +35,7 @@ func outProblem(o *proto.Output) (sig, what string) {
 func C04(c *fw.Ctx) {
 	c.Rule("corpus, 1-2 step mutants of corpus files, and a targeted generator (Path/regex/comment-only bodies, undefined types and enums, " +
 		"rule-example mismatches, invalid regexes, invalid UTF-8, all notations, json-rpc, tags, servers); every accepted build is serialised with " +
-		"ToJson and ToJsonIndent and validated; every project outside the mutant stream is built a second time and the two accessors are called "+
+		"ToJson and ToJsonIndent and validated; every project outside the mutant stream is built a second time and the two accessors are called " +
 		"concurrently on that one catalog (first use of every lazily built part is contended, delays at the yield hooks), same oracle; distinct = distinct project bytes; non-trivial = the build was accepted")
 	c.Assume("the shape validator was written from the JDoc Exchange 2.0.0 layout (harness/internal/ref/jdoc.go)")
 	pool := c.Pool(false, 0)
